@@ -32,8 +32,10 @@ ASSUMPTIONS = [
 PROPS = ["color", "hue", "marker", "linestyle", "linewidth", "markersize",
          "row", "col"]
 XS = [1.0, 2.0, 4.0]
-NUMC = [[0.5, 1.5, 2.5], [10, 30, 20], [7, 8, 9], [1, 2, 3]]
-STRC = [["q", "p", "zz"], ["u", "w", "v"], ["k", "j", "l"], ["m", "o", "n"]]
+NUMC = [[0.5, 1.5, 2.5, 3.5, 4.5, 5.5], [10, 30, 20, 50, 40, 60], [7, 8, 9],
+        [1, 2, 3]]
+STRC = [["q", "p", "zz", "r", "s", "t"], ["u", "w", "v", "a", "c", "b"],
+        ["k", "j", "l"], ["m", "o", "n"]]
 
 
 def assignments(k, tier):
@@ -72,7 +74,7 @@ def cases(tier, seed):
     for k in (1, 2, 3, 4):
         for assign in assignments(k, tier):
             for shp in shapes[k]:
-                for nanp in ("none", "point", "slice", "coord", "zero"):
+                for nanp in ("none", "point", "slice", "coord", "zero", "lone"):
                     if nanp == "coord" and shp[0] == 1:
                         continue  # (would leave a dataset without any data)
                     j += 1
@@ -96,6 +98,15 @@ def cases(tier, seed):
                            # the same call made again after other plots
                            # were drawn in this process
                            "prior": core.pick(hk + ["prior"], 4) == 0}
+    # a hue dimension with five values next to a colour dimension (the hues
+    # wrap around the colour circle)
+    for assign, shp in ((("hue", "color"), (5, 2)), (("color", "hue"), (2, 5)),
+                        (("hue", "color"), (6, 3))):
+        for nanp in ("none", "point"):
+            yield {"mode": "lines", "shape": list(shp),
+                   "assign": list(assign), "nan": nanp, "ctypes": [0, 1],
+                   "join": False, "order": 0, "stored": 0, "unmapped": False,
+                   "prior": False}
     # fused dimensions
     for p, nanp in itertools.product(("color", "marker", "linestyle", "row"),
                                      ("none", "point")):
@@ -165,6 +176,13 @@ def make_ds(shape, ctypes, nanp, nan_dim=0):
         sl = [slice(None)] * (k + 1)
         sl[nan_dim] = 0
         y[tuple(sl)] = np.nan
+    elif nanp == "lone":
+        # one coordinate keeps a single value (it still has data)
+        keep = y[(0,) * k + (1,)]
+        sl = [slice(None)] * (k + 1)
+        sl[nan_dim] = 0
+        y[tuple(sl)] = np.nan
+        y[(0,) * k + (1,)] = keep
     coords = {"x": XS}
     for i, (d, s) in enumerate(zip(dims, shape)):
         coords[d] = (STRC if ctypes[i] else NUMC)[i][:s]
@@ -404,6 +422,9 @@ def check_lines(case):
                 break
         firsts = [next(iter(s)) for s in groups.values()]
         limit = {"marker": 15, "linestyle": 6}.get(p, 7)
+        if p in ("color", "hue") and {"color", "hue"} <= set(mapping.values()):
+            # (every hue gets a colour map of its own)
+            limit = 18
         if len(groups) <= limit and len(set(map(str, firsts))) != len(groups):
             vio.append((key("style-not-distinct"),
                         "%s: %d coordinates of %s share styles %r"
